@@ -41,11 +41,16 @@ DirRawJudge(e) ==
   ELSE IF \E k \in 1..Len(e.dec) : e.lists[e.dec[k].list] # e.entries THEN "parse_differs"
   ELSE "ok"
 
+\* the length field of entry p is 0, or 0 modulo 2^32 (what a 32-bit length field holds): the directory must be refused
+\* -- and whatever the parser answers, no entry of length 0 may come out of it
 DirZeroRawJudge(e) ==
-  LET ends == V!Ends(e.raw) IN
-  IF Len(ends) < 1 + 4 * e.n \/ V!TokVal(e.raw, ends, 1 + 2 * e.n + e.p) # U!Zero
-  THEN "STIMULUS_no_zero_len"
-  ELSE IF \A k \in 1..Len(e.dec) : e.dec[k].res = "err" THEN "ok" ELSE "zero_len_accepted_by_parser"
+  LET ends == V!Ends(e.raw)
+      t == IF Len(ends) >= 1 + 4 * e.n THEN V!TokVal(e.raw, ends, 1 + 2 * e.n + e.p) ELSE U!One IN
+  IF Len(ends) < 1 + 4 * e.n \/ t[3] # 0 \/ t[4] # 0 THEN "STIMULUS_no_zero_len"
+  ELSE IF \E k \in 1..Len(e.dec) : e.dec[k].zero_out THEN "zero_length_entry_returned_by_parser"
+  ELSE IF t = U!Zero /\ \E k \in 1..Len(e.dec) : e.dec[k].res # "err" THEN "zero_len_accepted_by_parser"
+  ELSE IF \E k \in 1..Len(e.dec) : e.dec[k].res \notin {"ok", "err"} THEN "parser_crashed_on_zero_length"
+  ELSE "ok"
 
 (* ---- headers ------------------------------------------------------------ *)
 HdrObsOK(o, d, first) ==
@@ -90,8 +95,15 @@ TablesJudge(e) ==
   THEN "X:http_content_tables_differ_from_specification"
   ELSE IF e.mime # "application/vnd.pmtiles" THEN "X:mime_type_differs" ELSE "ok"
 
+\* large directories: serialise-then-parse returns the identical list (equality computed on the list values)
+RoundTripJudge(e) ==
+  IF \E k \in 1..Len(e.obs) : e.obs[k].enc # "ok" \/ e.obs[k].dec # "ok" THEN "serialiser_or_parser_failed_on_large_directory"
+  ELSE IF \E k \in 1..Len(e.obs) : ~e.obs[k].same \/ e.obs[k].n_parsed # e.n THEN "parse_differs"
+  ELSE "ok"
+
 Judge(e) ==
   CASE e.ev = "Tables"     -> TablesJudge(e)
+    [] e.ev = "DirRoundTrip" -> RoundTripJudge(e)
     [] e.ev = "Dir"        -> DirJudge(e)
     [] e.ev = "DirRaw"     -> DirRawJudge(e)
     [] e.ev = "DirZeroRaw" -> DirZeroRawJudge(e)
